@@ -36,6 +36,7 @@ def embedded_workloads():
         "wide_measurer": measurer(c32.run_wide, lambda rnd, i: (lambda ms, mp: {"measurer": "WideFIFOLatencyMeasurer", "slots": max(ms, mp) * rnd.randint(1, 3), "max_latency": rnd.choice([15, 16, 31, 100]),
                                                                            "max_start_count": ms, "max_stop_count": mp})(rnd.randint(1, 3), rnd.randint(1, 3))),
         "fifo_measurer": measurer(c32.run_fifo, lambda rnd, i: {"measurer": "FIFOLatencyMeasurer", "slots": rnd.randint(1, 8), "max_latency": rnd.choice([7, 8, 15, 100]), "ways": rnd.randint(1, 3)}),
+        "tagged_measurer": measurer(c32.run_tagged, lambda rnd, i: {"measurer": "TaggedLatencyMeasurer", "slots": rnd.randint(1, 8), "max_latency": rnd.choice([7, 8, 15, 64, 100]), "ways": rnd.randint(1, 3)}),
         "basicfifo": basicfifo,
     }
 
